@@ -770,7 +770,7 @@ func reachesBlockAvoiding(start *ssa.BasicBlock, target *ssa.BasicBlock, stop fu
 
 // OrdAppendEach implements ORD-APPENDEACH.
 func OrdAppendEach(p *load.Program) *report.RuleResult {
-	r := newResult("ORD-APPENDEACH", "the function that turns the symbols list of a local symbol table into the table's text slice appends exactly one entry per list element on every path round its Next loop: symbol IDs are positions in that slice, so an element that is skipped (null, not a string) shifts every later ID by one", 1)
+	r := newResult("ORD-APPENDEACH", "the function that turns the symbols list of a local symbol table into the table's text slice appends exactly one entry per list element on every path round its Next loop, and lst.WriteTo writes exactly one list element per entry of the table's symbols: symbol IDs are positions, so an element that is skipped on either side (null, not a string, empty text) shifts every later ID by one", 2)
 	n := 0
 	for _, fn := range sortedFuncs(p) {
 		if !ScopeLST.has(p, fn) || len(fn.Blocks) == 0 {
@@ -811,6 +811,45 @@ func OrdAppendEach(p *load.Program) *report.RuleResult {
 	}
 	if n == 0 {
 		missing(r, "symbols-list loop", "no function of readlocalsymboltable.go returning []string loops over Reader.Next")
+	}
+	// the writing side: lst.WriteTo emits one list element per entry of t.symbols
+	if wt := p.Func(nil, "lst.WriteTo"); wt == nil {
+		missing(r, "lst.WriteTo", "not found")
+	} else {
+		isWrite := func(in ssa.Instruction) bool {
+			c, ok := in.(ssa.CallInstruction)
+			return ok && c.Common().IsInvoke() && strings.HasPrefix(c.Common().Method.Name(), "Write")
+		}
+		m := 0
+		for _, b := range wt.Blocks {
+			for _, in := range b.Instrs {
+				ph, ok := in.(*ssa.Phi)
+				if !ok || ph.Comment != "rangeindex" || blockIfCond(b) == nil {
+					continue
+				}
+				body := b.Succs[0]
+				overSymbols := false
+				for _, x := range body.Instrs {
+					if ia, ok := x.(*ssa.IndexAddr); ok {
+						if _, f, _, ok := fieldLoadExact(ia.X); ok && f == "symbols" {
+							overSymbols = true
+						}
+					}
+				}
+				if !overSymbols {
+					continue
+				}
+				m++
+				if reachesBlockAvoiding(body, b, isWrite) {
+					r.Bad(p.FuncName(wt), instrPos(p, ph), "one list element per entry of symbols", "a path round the loop writes nothing for an entry: the emitted table is shorter than the one the writer numbers its symbols by, so every later ID denotes other text (or none) in the stream")
+				} else {
+					r.OK(p.FuncName(wt), instrPos(p, ph), "one list element per entry of symbols", "every path round the loop writes a value")
+				}
+			}
+		}
+		if m == 0 {
+			missing(r, "loop over symbols in lst.WriteTo", "not found")
+		}
 	}
 	return r
 }
@@ -1610,6 +1649,486 @@ func OwnEncPure(p *load.Program) *report.RuleResult {
 			r.OK(name, p.Pos(fn.Pos()), "no write through the marshalled value", "no mutating reflect call is reachable")
 		} else {
 			r.Bad(name, p.Pos(fn.Pos()), "no write through the marshalled value", via+": marshalling allocates or overwrites part of the caller's value (a nil embedded pointer comes back non-nil; concurrent Marshal calls on one value race)")
+		}
+	}
+	return r
+}
+
+// ---------------------------------------------------------------------------
+// TAB-OVERRUN
+
+// dependsOn reports whether v is computed from root (def-use, bounded).
+func dependsOn(v, root ssa.Value, depth int) bool {
+	if v == root {
+		return true
+	}
+	if depth > 8 {
+		return false
+	}
+	in, ok := v.(ssa.Instruction)
+	if !ok {
+		return false
+	}
+	if _, isPhi := v.(*ssa.Phi); isPhi && depth > 0 {
+		return false
+	}
+	for _, op := range in.Operands(nil) {
+		if *op != nil && dependsOn(*op, root, depth+1) {
+			return true
+		}
+	}
+	return false
+}
+
+// TabOverrun implements TAB-OVERRUN: when the length of a value is read from a
+// separate VarUInt, what the value is allowed to occupy is what remains of the
+// container after that VarUInt.
+func TabOverrun(p *load.Program) *report.RuleResult {
+	r := newResult("TAB-OVERRUN", "in bitstream.Next, wherever a length decoded by readVarUintLen is compared with the space left in the container, the space on that path has been reduced by the size of the length field (it depends on the second result of the same readVarUintLen call, or is measured again after it): otherwise a value may overrun its container by up to the size of its length field and the reader's own position checks panic", 1)
+	fn := p.Func(nil, "bitstream.Next")
+	if fn == nil {
+		missing(r, "bitstream.Next", "not found")
+		return r
+	}
+	name := p.FuncName(fn)
+	n := 0
+	for _, b := range fn.Blocks {
+		for _, in := range b.Instrs {
+			ph, ok := in.(*ssa.Phi)
+			if !ok {
+				continue
+			}
+			for i, e := range ph.Edges {
+				ex, ok := e.(*ssa.Extract)
+				if !ok || ex.Index != 0 {
+					continue
+				}
+				c, ok := ex.Tuple.(*ssa.Call)
+				if !ok {
+					continue
+				}
+				if f := load.Unwrap(c.Call.StaticCallee()); f == nil || f.Name() != "readVarUintLen" {
+					continue
+				}
+				// comparisons of this phi with a space value
+				for _, ref := range *ph.Referrers() {
+					bo, ok := ref.(*ssa.BinOp)
+					if !ok {
+						continue
+					}
+					switch bo.Op {
+					case token.GTR, token.LSS, token.GEQ, token.LEQ:
+					default:
+						continue
+					}
+					other := bo.Y
+					if bo.Y == ssa.Value(ph) {
+						other = bo.X
+					}
+					if _, isC := other.(*ssa.Const); isC {
+						continue
+					}
+					n++
+					what := sprintf("decoded length %s %s", bo.Op, describeOperand(other))
+					okSpace := false
+					after := func(v ssa.Value) bool {
+						// measured again after the length field was read
+						mc, ok := v.(*ssa.Call)
+						if !ok {
+							return false
+						}
+						if mc.Block() == c.Block() {
+							return ssau.InstrIndex(mc) > ssau.InstrIndex(c)
+						}
+						return c.Block().Dominates(mc.Block())
+					}
+					switch o := other.(type) {
+					case *ssa.Phi:
+						if o.Block() == ph.Block() && i < len(o.Edges) {
+							okSpace = dependsOn(o.Edges[i], c, 0) || after(o.Edges[i])
+						}
+					default:
+						okSpace = dependsOn(other, c, 0) || after(other)
+					}
+					if okSpace {
+						r.OK(name, instrPos(p, bo), what, "on the path that read the length field the space has been reduced by that field's size")
+					} else {
+						r.Bad(name, instrPos(p, bo), what, "on the path that read the length from a separate VarUInt the space compared is still the one measured before that VarUInt: a child may declare up to the size of its length field too much, the next read starts beyond the container's end and remaining()/StepOut panic")
+					}
+				}
+			}
+		}
+	}
+	if n == 0 {
+		missing(r, "comparison of a decoded length with the remaining space in bitstream.Next", "not found")
+	}
+	return r
+}
+
+// ---------------------------------------------------------------------------
+// ORD-APPENDCARRY
+
+// OrdAppendCarry implements ORD-APPENDCARRY: `imports: $ion_symbol_table`
+// carries the current table over unless there is no current table.
+func OrdAppendCarry(p *load.Program) *report.RuleResult {
+	r := newResult("ORD-APPENDCARRY", "in readImports, in the case imports: $ion_symbol_table (the symbol with ID 3), an exit that hands back no imports is taken only on an edge that established that the reader has no current symbol table or only the system table (SymbolTable() == nil / == V1SystemSymbolTable); every other exit of that case carries the current table's imports and symbols over, so IDs assigned by earlier tables keep their meaning after an append", 1)
+	fn := p.Func(nil, "readImports")
+	if fn == nil {
+		missing(r, "readImports", "not found")
+		return r
+	}
+	name := p.FuncName(fn)
+	var region *ssa.BasicBlock
+	for _, b := range fn.Blocks {
+		bo, ok := blockIfCond(b).(*ssa.BinOp)
+		if !ok || bo.Op != token.EQL {
+			continue
+		}
+		if k, ok := ssau.ConstInt(bo.Y); ok && k == 3 && strings.HasSuffix(ssau.Path(bo.X), ".LocalSID") {
+			region = b.Succs[0]
+		}
+	}
+	if region == nil {
+		missing(r, "test LocalSID == 3 in readImports", "not found")
+		return r
+	}
+	noTableEdge := func(pred *ssa.BasicBlock, to *ssa.BasicBlock) bool {
+		bo, ok := blockIfCond(pred).(*ssa.BinOp)
+		if !ok || (bo.Op != token.EQL && bo.Op != token.NEQ) {
+			return false
+		}
+		isTable := func(v ssa.Value) bool {
+			c, ok := v.(*ssa.Call)
+			return ok && c.Call.IsInvoke() && c.Call.Method.Name() == "SymbolTable"
+		}
+		isNone := func(v ssa.Value) bool {
+			if ssau.IsNilConst(v) {
+				return true
+			}
+			// V1SystemSymbolTable, possibly converted to the interface type
+			for i := 0; i < 3; i++ {
+				switch x := v.(type) {
+				case *ssa.MakeInterface:
+					v = x.X
+				case *ssa.ChangeInterface:
+					v = x.X
+				case *ssa.UnOp:
+					if g, ok := x.X.(*ssa.Global); ok && g.Name() == "V1SystemSymbolTable" {
+						return true
+					}
+					return false
+				}
+			}
+			return false
+		}
+		if !(isTable(bo.X) && isNone(bo.Y)) && !(isTable(bo.Y) && isNone(bo.X)) {
+			return false
+		}
+		si := 0
+		if bo.Op == token.NEQ {
+			si = 1
+		}
+		return pred.Succs[si] == to
+	}
+	n := 0
+	for _, ret := range returns(fn) {
+		b := ret.Block()
+		if !region.Dominates(b) || len(ret.Results) < 2 || !ssau.IsNilConst(ret.Results[0]) || !ssau.IsNilConst(ret.Results[1]) {
+			continue
+		}
+		n++
+		bad := ""
+		for _, pr := range b.Preds {
+			if !noTableEdge(pr, b) {
+				bad = p.Pos(lastPos(pr))
+			}
+		}
+		what := "exit without imports in the append case"
+		if bad == "" {
+			r.OK(name, instrPos(p, ret), what, "taken only when there is no current table or only the system table")
+		} else {
+			r.Bad(name, instrPos(p, ret), what, "reachable through the branch at "+bad+", which does not establish that there is no current table: the current table's imports are dropped and the IDs of everything appended afterwards start right after the system symbols")
+		}
+	}
+	if n == 0 {
+		r.OK(name, p.Pos(fn.Pos()), "exits of the append case", "no exit of the append case hands back nothing")
+	}
+	return r
+}
+
+// ---------------------------------------------------------------------------
+// OWN-SYMQUOTE
+
+// derivedFrom computes the values of fn computed from root by string building
+// (concatenation, phis, fmt.Sprint*, conversions, varargs packing).
+func derivedFrom(root ssa.Value) map[ssa.Value]bool {
+	d := map[ssa.Value]bool{root: true}
+	work := []ssa.Value{root}
+	add := func(v ssa.Value) {
+		if v != nil && !d[v] {
+			d[v] = true
+			work = append(work, v)
+		}
+	}
+	for len(work) > 0 {
+		v := work[len(work)-1]
+		work = work[:len(work)-1]
+		if v.Referrers() == nil {
+			continue
+		}
+		for _, ref := range *v.Referrers() {
+			switch x := ref.(type) {
+			case *ssa.BinOp:
+				if x.Op == token.ADD {
+					add(x)
+				}
+			case *ssa.Phi:
+				add(x)
+			case *ssa.MakeInterface:
+				add(x)
+			case *ssa.Convert:
+				add(x)
+			case *ssa.ChangeType:
+				add(x)
+			case *ssa.Slice:
+				add(x)
+			case *ssa.Store:
+				if x.Val == v {
+					// packed into a varargs array or a local
+					switch a := x.Addr.(type) {
+					case *ssa.IndexAddr:
+						add(a.X)
+					case *ssa.Alloc:
+						add(a)
+					}
+				}
+			case *ssa.UnOp:
+				if x.Op == token.MUL {
+					add(x)
+				}
+			case *ssa.Call:
+				if f := x.Call.StaticCallee(); f != nil && f.Pkg != nil && f.Pkg.Pkg.Path() == "fmt" && strings.HasPrefix(f.Name(), "Sprint") {
+					add(x)
+				}
+			}
+		}
+	}
+	return d
+}
+
+// OwnSymQuote implements OWN-SYMQUOTE.
+func OwnSymQuote(p *load.Program) *report.RuleResult {
+	r := newResult("OWN-SYMQUOTE", "in the text writer, text taken from a SymbolToken (a load of its Text field) reaches a raw output call (writeRawString, io.WriteString, Write) only in a function that also asks symbolIdentifier about that text: identifier-shaped text of the form $n must be quoted wherever a symbol token is written (value, field name or annotation), or it is read back as a symbol ID", 1)
+	sc := Scope{Name: "text writer", Pkgs: []string{"ion"}, Files: []string{"textwriter.go", "textutils.go"}}
+	isRaw := func(c ssa.CallInstruction) bool {
+		cc := c.Common()
+		if cc.IsInvoke() {
+			return cc.Method.Name() == "Write" || cc.Method.Name() == "WriteString"
+		}
+		f := cc.StaticCallee()
+		if f == nil {
+			return false
+		}
+		if f.Pkg != nil && f.Pkg.Pkg.Path() == "io" && f.Name() == "WriteString" {
+			return true
+		}
+		return f.Name() == "writeRawString" || f.Name() == "writeRawChars"
+	}
+	for _, fn := range sortedFuncs(p) {
+		if !sc.has(p, fn) || len(fn.Blocks) == 0 {
+			continue
+		}
+		for _, b := range fn.Blocks {
+			for _, in := range b.Instrs {
+				ld, ok := in.(*ssa.UnOp)
+				if !ok || ld.Op != token.MUL {
+					continue
+				}
+				// *(tok.Text): a load of a *string that is itself loaded from field Text of a SymbolToken
+				inner, ok := ld.X.(*ssa.UnOp)
+				if !ok || inner.Op != token.MUL {
+					continue
+				}
+				fa, ok := inner.X.(*ssa.FieldAddr)
+				if !ok || fieldName2(fa) != "Text" || ssau.TypeName(fa.X.Type()) != "SymbolToken" {
+					continue
+				}
+				d := derivedFrom(ld)
+				asked := false
+				var raw ssa.Instruction
+				for v := range d {
+					if v.Referrers() == nil {
+						continue
+					}
+					for _, ref := range *v.Referrers() {
+						c, ok := ref.(ssa.CallInstruction)
+						if !ok {
+							continue
+						}
+						if f := load.Unwrap(c.Common().StaticCallee()); f != nil && f.Name() == "symbolIdentifier" {
+							asked = true
+						}
+						if isRaw(c) {
+							raw = ref
+						}
+					}
+				}
+				name := p.FuncName(fn)
+				what := "text of " + describeOperand(fa.X)
+				switch {
+				case raw == nil:
+					r.OK(name, instrPos(p, ld), what, "never written raw here (handed to the quoting writers)")
+				case asked:
+					r.OK(name, instrPos(p, ld), what, "written raw only in a function that asks symbolIdentifier about it")
+				default:
+					r.Bad(name, instrPos(p, ld), what, "reaches the raw write at "+instrPos(p, raw)+" in a function that never asks symbolIdentifier about it: an annotation, field name or value with the text $7 comes out unquoted and is read back as symbol ID 7")
+				}
+			}
+		}
+	}
+	return r
+}
+
+// ---------------------------------------------------------------------------
+// TAB-ADJUSTMAX
+
+// TabAdjustMax implements TAB-ADJUSTMAX: the table Adjust(n) returns has
+// MaxID() == n.
+func TabAdjustMax(p *load.Program) *report.RuleResult {
+	r := newResult("TAB-ADJUSTMAX", "every table sst.Adjust(maxID) returns has exactly the requested max_id: a new table's maxID field is the parameter, and the receiver itself is returned only where maxID == s.maxID is established; an import must reserve exactly the ID range its declaration states, or every local symbol after it is numbered differently by writer and reader", 2)
+	fn := p.Func(nil, "sst.Adjust")
+	if fn == nil {
+		missing(r, "sst.Adjust", "not found")
+		return r
+	}
+	name := p.FuncName(fn)
+	if len(fn.Params) < 2 {
+		missing(r, "sst.Adjust parameters", "unexpected signature")
+		return r
+	}
+	recv, prm := fn.Params[0], fn.Params[1]
+	ff := ssau.ComputeFacts(fn, ssau.StoreKills)
+	for _, ret := range returns(fn) {
+		if len(ret.Results) != 1 {
+			continue
+		}
+		v := ret.Results[0]
+		for i := 0; i < 3; i++ {
+			if mi, ok := v.(*ssa.MakeInterface); ok {
+				v = mi.X
+			}
+		}
+		switch x := v.(type) {
+		case *ssa.Parameter:
+			what := "returns the receiver unchanged"
+			if x != recv {
+				r.Unknown(name, instrPos(p, ret), what, "returns a parameter other than the receiver")
+				continue
+			}
+			_, ok := ff.At(ret).Any("eq", func(f ssau.Fact) bool {
+				a, b := f.Path, f.Arg
+				isPrm := func(s string) bool { return s == ssau.Path(prm) }
+				isFld := func(s string) bool { return strings.HasPrefix(s, ssau.Path(recv)) && strings.HasSuffix(s, ".maxID") }
+				return (isPrm(a) && isFld(b)) || (isPrm(b) && isFld(a))
+			})
+			if ok {
+				r.OK(name, instrPos(p, ret), what, "only where maxID == s.maxID")
+			} else {
+				r.Bad(name, instrPos(p, ret), what, "the receiver is returned without maxID == s.maxID being established: the import keeps a max_id other than the declared one, so the IDs after it shift")
+			}
+		case *ssa.Alloc:
+			what := "returns a new table"
+			var stored ssa.Value
+			for _, ref := range *x.Referrers() {
+				if fa, ok := ref.(*ssa.FieldAddr); ok && fieldName2(fa) == "maxID" {
+					for _, r2 := range *fa.Referrers() {
+						if st, ok := r2.(*ssa.Store); ok && st.Addr == ssa.Value(fa) {
+							stored = st.Val
+						}
+					}
+				}
+			}
+			if stored == ssa.Value(prm) {
+				r.OK(name, instrPos(p, ret), what, "its maxID is the parameter")
+			} else {
+				r.Bad(name, instrPos(p, ret), what, sprintf("its maxID is %s, not the requested value", describeVal(stored)))
+			}
+		default:
+			r.Unknown(name, instrPos(p, ret), "returned table", "neither the receiver nor a table literal")
+		}
+	}
+	return r
+}
+
+// ---------------------------------------------------------------------------
+// TAB-LENCOUNT
+
+// TabLenCount implements TAB-LENCOUNT: Ion binary has byte lengths only.
+func TabLenCount(p *load.Program) *report.RuleResult {
+	r := newResult("TAB-LENCOUNT", "every length the binary writer hands to the length encoders (appendVarUint, appendTag, varUintLen, tagLen and the write* helpers that take a length) that is derived from len(x) takes the len of bytes (a []byte or a string): Ion 1.0 binary has no element counts, every length field counts octets, so the number of annotations, fields or elements never stands where a length is declared", 5)
+	enc := map[string]bool{"appendVarUint": true, "appendTag": true, "varUintLen": true, "tagLen": true, "writeTag": true, "writeLen": true}
+	var lenSource func(v ssa.Value, d int) *ssa.Call
+	lenSource = func(v ssa.Value, d int) *ssa.Call {
+		if d > 6 {
+			return nil
+		}
+		switch x := v.(type) {
+		case *ssa.Call:
+			if ssau.IsBuiltinCall(x, "len") {
+				return x
+			}
+		case *ssa.Convert:
+			return lenSource(x.X, d+1)
+		case *ssa.ChangeType:
+			return lenSource(x.X, d+1)
+		case *ssa.BinOp:
+			if x.Op == token.ADD || x.Op == token.SUB {
+				if c := lenSource(x.X, d+1); c != nil {
+					return c
+				}
+				return lenSource(x.Y, d+1)
+			}
+		}
+		return nil
+	}
+	for _, fn := range sortedFuncs(p) {
+		if !ScopeWriter.has(p, fn) || len(fn.Blocks) == 0 {
+			continue
+		}
+		for _, b := range fn.Blocks {
+			for _, in := range b.Instrs {
+				c, ok := in.(ssa.CallInstruction)
+				if !ok {
+					continue
+				}
+				f := load.Unwrap(c.Common().StaticCallee())
+				if f == nil || !enc[f.Name()] {
+					continue
+				}
+				for _, a := range c.Common().Args {
+					lc := lenSource(a, 0)
+					if lc == nil {
+						continue
+					}
+					t := lc.Call.Args[0].Type().Underlying()
+					bytes := false
+					switch tt := t.(type) {
+					case *types.Basic:
+						bytes = tt.Info()&types.IsString != 0
+					case *types.Slice:
+						if e, ok := tt.Elem().Underlying().(*types.Basic); ok && (e.Kind() == types.Byte || e.Kind() == types.Uint8) {
+							bytes = true
+						}
+					}
+					name := p.FuncName(fn)
+					what := sprintf("%s(len(%s))", f.Name(), describeOperand(lc.Call.Args[0]))
+					if bytes {
+						r.OK(name, instrPos(p, in), what, "a length of bytes")
+					} else {
+						r.Bad(name, instrPos(p, in), what, sprintf("the len of a %s is an element count, not a number of octets: the declared length is right only while every element happens to encode in one byte", types.TypeString(t, shortQual)))
+					}
+				}
+			}
 		}
 	}
 	return r
